@@ -880,7 +880,7 @@ package server
 //@   prop C07
 //@   ghost selG intset = emptyset()
 //@   ghost selectedG bool = false
-//@   frame-assumed preserves GarbageCollector.*, Store.deletedDatasets, map[uint32]bool
+//@   preserves GarbageCollector.*, Store.deletedDatasets, map[uint32]bool
 //@   requires garbageCollector != nil && garbageCollector.store != nil && (len(prefix) == 2 || len(prefix) == 6)
 //@   dyncall selector pure
 //@   at $2 call selector#1
@@ -971,7 +971,7 @@ package server
 //@   requires-inv [datasets-are-constructed-with-their-store] ds != nil ==> ds.store != nil && ds.store.NamespaceManager != nil
 //@   requires [callers-hold-no-lock-above-the-dataset-level] forall l int :: has($held, l) ==> lockLevel(l) <= 2
 //@   requires [C04,C05:core-dataset-lock-free-when-another-datasets-counter-is-updated] ds.ID != "core.Dataset" ==> (forall d *Dataset :: has($held, addrOf(d.WriteLock)) ==> d.ID != "core.Dataset")
-//@   frame-assumed preserves Dataset.*, Store.*
+//@   frame-assumed preserves Entity.IsDeleted, Entity.ID, Dataset.store, Dataset.fullSyncStarted, Dataset.fullSyncSeen, Dataset.fullSyncID, Dataset.fullSyncLease, Dataset.ID, Dataset.InternalID, []*server.Entity, Cell.*, Store.deletedDatasets, Store.nextDatasetID, map[uint32]bool, DsManager.*
 //@   at call GetEntity#1 before
 //@     assert [C19:meta-entity-looked-up-in-core-dataset-only] len(datasets) == 1 && datasets[0] == "core.Dataset" && mergePartials
 //@   at call GetEntity#1
@@ -1485,7 +1485,7 @@ package server
 //@   ghost relEntG intmap
 //@   requires s != nil && limit >= 0
 //@   requires-inv [start-points-are-well-formed:built-by-ToRelatedFrom-or-returned-as-a-continuation-by-the-scan] from != nil && encBE16(from.RelationIndexFromKey, 0) == (from.Inverse ? 2 : 3) && len(from.RelationIndexFromKey) >= 10
-//@   frame-assumed preserves RelatedFrom.*, []*server.RelatedFrom, Store.*, Cell.*, []server.RelatedEntityResult, Dataset.*, RelatedEntitiesQueryResult.*, []uint32
+//@   preserves RelatedFrom.*, []*server.RelatedFrom, Store.*, Dataset.*, RelatedEntitiesQueryResult.*, []uint32
 //@   ensures [C03:results-are-handed-back-in-a-list-of-their-own] ret1 == nil ==> fresh(ret0.Relations)
 //@   ensures [C03:one-result-per-scanned-relation] ret1 == nil ==> len(ret0.Relations) == len(scanRelsG)
 //@   ensures [C03:continuation-of-the-scan-is-handed-on] ret1 == nil ==> ret0.Continuation == scanContG
